@@ -594,6 +594,14 @@ def run_recipe(ctx, recipe: dict, chaos: Optional[Callable] = None) -> dict:
                 tr["lines"].append(("spec " + " ".join(ttoks)) if want_truth else ("obs " + " ".join(toks)))
                 ccur = rig.canon(cur)
                 tr["impl"].append((ccur, ok_nested, fb))
+                if tr["flatten"] and full and ok_nested:
+                    # the ORDER of the flattened vector: every element against the model's gymFlatten (gymnasium's key order) of its own value
+                    try:
+                        vec = gymnasium.spaces.flatten(sp, cur)
+                        tr["lines"].append("gflat")
+                        tr["impl"].append(("gflat", "".join(str(int(b)) for b in vec), bool(fb)))
+                    except Exception:  # noqa: BLE001 - reported by the API checks below
+                        pass
                 if tr["default"] is not None:
                     for (pth, val), (_, dv) in zip(leaf_paths(ccur), leaf_paths(tr["default"])):
                         if val != dv:
@@ -803,6 +811,19 @@ def check_env(ctx, rname: str, res: dict, model_by_track: Dict[str, List[str]], 
         for idx in range(tr["first"], len(tr["impl"])):
             cell = tr["impl"][idx]
             if isinstance(cell, str):
+                continue
+            if cell[0] == "gflat":
+                ctx.count("env:flattened-vector-compared-element-by-element")
+                if model[idx] != cell[1]:
+                    if cell[2]:
+                        ctx.count("env:float-boundary-step (flattened vector excluded)")
+                        continue
+                    agree = False
+                    at = next((i for i, (a_, b_) in enumerate(zip(cell[1], model[idx])) if a_ != b_), min(len(cell[1]), len(model[idx])))
+                    ctx.violation({"kind": "model-vs-impl", "what": "flattened vector (order of the leaves)", "class": "env"},
+                                  f"{rname} {key}: flatten(space, obs) differs from the model's gymFlatten at position {at} (lengths {len(cell[1])} / {len(model[idx])})",
+                                  {"recipe": recipe, "track": key, "position": at})
+                    break
                 continue
             if cell[0] == "flatdim":
                 flat_dim = int(model[idx].split()[0])
